@@ -262,6 +262,29 @@ func (s *server) ModifyColumnFamilies(ctx context.Context, req *btapb.ModifyColu
 	defer tbl.mu.Unlock()
 	cfs := tbl.def.ColumnFamilies
 
+	// Validate the whole request first, so that it is applied entirely or not at all.
+	exists := make(map[string]bool, len(cfs))
+	for id := range cfs {
+		exists[id] = true
+	}
+	for _, mod := range req.Modifications {
+		if create := mod.GetCreate(); create != nil {
+			if exists[mod.Id] {
+				return nil, status.Errorf(codes.AlreadyExists, "family %q already exists", mod.Id)
+			}
+			exists[mod.Id] = true
+		} else if mod.GetDrop() {
+			if !exists[mod.Id] {
+				return nil, fmt.Errorf("can't delete unknown family %q", mod.Id)
+			}
+			delete(exists, mod.Id)
+		} else if modify := mod.GetUpdate(); modify != nil {
+			if !exists[mod.Id] {
+				return nil, fmt.Errorf("no such family %q", mod.Id)
+			}
+		}
+	}
+
 	for _, mod := range req.Modifications {
 		if create := mod.GetCreate(); create != nil {
 			if _, ok := cfs[mod.Id]; ok {
